@@ -189,6 +189,22 @@ def run(ctx):
         loops = astq.nodes_of(g, "WhileStmt")
         tail = [w for w in loops if g.text(g.nodes[w]["cond"]).replace(" ", "") == "(offset<size)"]
         r.ob(g.q, "vector + tail", ok and len(tail) == 1, "vector part covers [0, m_size << Shift), the tail loop covers [offset, size)", "Include/Memory.hpp:%d" % g.line)
+        # every whole-register access sits in the counted vector loop; one outside it must address size - Size, written with
+        # the configuration's own constant (a literal matches one register width only)
+        vec = [c for c in astq.calls(g) if (g.call_simple_name(c) or "") in ("Store", "Load") and "SIMD" in (g.callee_name(c)[0] or "SIMD")]
+        dos = astq.nodes_of(g, "DoStmt")
+        stray = []
+        for c in vec:
+            lp = astq.enclosing(g, c, ("DoStmt", "WhileStmt", "ForStmt"))
+            if lp is not None and lp in dos:
+                continue
+            a0 = g.text(g.call_args(c)[0]).replace(" ", "")
+            if "size-Platform::SIMD::Size" in a0 or "size-Size" in a0:
+                continue
+            stray.append("%s at %s" % (g.text(c)[:70], g.loc(c)))
+        r.ob(g.q, "%d whole-register accesses" % len(vec), bool(vec) and not stray, "all inside the vector loop bounded by m_size registers%s" % (
+             "" if not stray else "; NOT: %s -- a register-wide access at a literal offset fits one register width only (16 bytes SSE2, 32 bytes AVX2)" % "; ".join(stray)),
+             "Include/Memory.hpp:%d" % g.line)
     al = m.fn("Qentem::Memory::AlignSize")
     t = [al.text(x) for x in al.nodes[al.body]["ch"]]
     ok = len(t) == 3 and "FindLastBit(n_size)" in t[0] and "<<" in t[0] and al.nodes[al.nodes[al.body]["ch"][1]]["k"] == "IfStmt" and "(size < n_size)" in al.text(al.nodes[al.nodes[al.body]["ch"][1]]["cond"])
@@ -209,6 +225,8 @@ def run(ctx):
         missing = [x[0] for x in need if not any(y in calls for y in x)]
         r.ob(f.sig, "source `%s` reset" % src, not missing, "calls on the source: %s; missing %s" % (calls, missing), "%s:%d" % (f.file.split("/Include/")[-1], f.line))
     rules.append(r)
+    from rules.common import rule_narrow_units
+    rules.append(rule_narrow_units(ctx, m, ["StringUtils.hpp", "String.hpp", "StringStream.hpp", "StringView.hpp"]))
     return rules
 
 
